@@ -15,7 +15,7 @@ use crate::world::query::*;
 use crate::world::schema::*;
 use serde_json::{json, Value};
 
-pub const POSITIONS: &[&str] = &["response_field", "alias", "variable", "input_field", "one_of_member", "enum_value"];
+pub const POSITIONS: &[&str] = &["response_field", "alias", "alias_enum", "variable", "input_field", "one_of_member", "enum_value"];
 
 fn obj(name: &str, fields: Vec<FieldDef>) -> ObjectT {
     ObjectT { name: name.into(), fields, implements: vec![], ext_split: None, ext_impl_split: None, description: None }
@@ -65,6 +65,17 @@ pub fn point(word: &str, position: &str, rust: bool, delivery: Delivery) -> Opti
             let p = P { nullable: false, kind: objp("Query", vec![("node", inner), (second_key.as_str(), inner2)]).kind };
             vectors.push(("response".into(), String::new(), json!({"node": { w.clone(): "x" }, second_key.clone(): {"leaf": "y"}}), Expectation::RoundTrip { p }));
         }
+        "alias_enum" => {
+            // the alias of an enum-typed field (the wire key is the alias, not the schema field name)
+            schema.enums.push(EnumT { name: "Kind".into(), values: vec!["FIRST_VALUE".into(), "SECOND_VALUE".into()], deprecated_values: vec![] });
+            schema.objects[1].fields.push(fd("kind", TypeExpr::plain(Named::Enum(0), true)));
+            schema.objects[1].fields.push(fd("maybeKind", TypeExpr::plain(Named::Enum(0), false)));
+            sel.push(field("kind", Some(&w), vec![], vec![]));
+            let second = format!("{}2", if w == "Self" { "selfx" } else { "plainAlias" });
+            sel.push(field("maybeKind", Some(&second), vec![], vec![]));
+            let p = P { nullable: false, kind: objp("Query", vec![(w.as_str(), leafp(LeafKind::Enum, json!("FIRST_VALUE"), false)), (second.as_str(), leafp(LeafKind::Enum, json!("SECOND_VALUE"), true))]).kind };
+            vectors.push(("response".into(), String::new(), json!({ w.clone(): "FIRST_VALUE", second.clone(): "SECOND_VALUE" }), Expectation::RoundTrip { p }));
+        }
         "variable" => {
             schema.objects[1].fields[0].args.push(ArgDef { name: "arg".into(), ty: int(false) });
             vars.push(VarDef { name: w.clone(), ty: int(false), default: None });
@@ -74,7 +85,7 @@ pub fn point(word: &str, position: &str, rust: bool, delivery: Delivery) -> Opti
         }
         "input_field" | "one_of_member" => {
             let one_of = position == "one_of_member";
-            schema.inputs.push(InputT { name: "In".into(), fields: vec![InputFieldDef { name: w.clone(), ty: int(false) }, InputFieldDef { name: "plainMember".into(), ty: TypeExpr::plain(Named::String, false) }], one_of });
+            schema.inputs.push(InputT { name: "In".into(), fields: vec![InputFieldDef { name: w.clone(), ty: int(false), default: None }, InputFieldDef { name: "plainMember".into(), ty: TypeExpr::plain(Named::String, false), default: None }], one_of });
             schema.objects[1].fields[0].args.push(ArgDef { name: "arg".into(), ty: TypeExpr::plain(Named::Input(0), false) });
             vars.push(VarDef { name: "inp".into(), ty: TypeExpr::plain(Named::Input(0), true), default: None });
             sel.push(field("plain", None, vec![("arg".into(), ArgValue::Var("inp".into()))], vec![]));
@@ -166,6 +177,30 @@ pub fn run(report: &mut Report, replay: Option<&Value>) {
             }
         }
     }
+    // names that are not keywords as spelled but whose snake_case image is one (`Type`, `TYPE`, `_type`):
+    // the Rust identifier is derived from the snake_case image, so it must be escaped as well
+    let mut n_case_variants = 0usize;
+    for w in RUST_KEYWORDS {
+        if *w == "Self" {
+            continue;
+        }
+        let mut variants = vec![format!("{}{}", w[..1].to_uppercase(), &w[1..]), w.to_uppercase(), format!("_{}", w)];
+        variants.dedup();
+        for v in variants {
+            if RUST_KEYWORDS.contains(&v.as_str()) {
+                continue;
+            }
+            for p in ["response_field", "alias", "alias_enum", "variable", "input_field"] {
+                k += 1;
+                if let Some(mut it) = point(&v, p, false, if k % 3 == 0 { Delivery::Derive } else { Delivery::Library }) {
+                    it.base.features.set.insert("keyword_case_variant");
+                    items.push(it);
+                    n_case_variants += 1;
+                }
+            }
+        }
+    }
+    report.extra.insert("keyword_case_variant_points".into(), json!(n_case_variants));
     let n_keyword_points = items.len();
     for (si, st) in ALL_STYLES.iter().enumerate() {
         for words in [vec!["alpha", "count"], vec!["delta"]] {
